@@ -1,5 +1,5 @@
 (* C13 — DAG: a task starts only after all its dependencies have finished successfully. *)
-From GO Require Import Base.Str Model.Tree Model.Dag Proofs.DagHold Proofs.DagInv Proofs.DagBuild Proofs.DagOnce Proofs.AcceptSound.
+From GO Require Import Base.Str Model.Tree Model.Dag Proofs.DagHold Proofs.DagInv Proofs.DagBuild Proofs.DagOnce Proofs.AcceptSound Proofs.DagReport.
 From GO Require Import Run.Check.
 
 (* Graph.Run as a transition system (Model/Dag.v): the scheduler loop, one thread per launched
@@ -46,6 +46,16 @@ Theorem C13_deps_before :
     forall c, In c (children g v) -> In c (d_okdone st).
 Proof. exact start_needs_dependencies. Qed.
 Print Assumptions C13_deps_before.
+
+(* ... and, transitively, every task it depends on through other tasks: for every graph the API can
+   build, every schedule and every state in which the function of v is entered *)
+Theorem C13_all_dependencies_before :
+  forall ops cf ls st v st',
+    let g := build_graph ops in
+    dsteps g cf (init_state []) ls = Some st -> dstep g cf st (LStart v) = Some st' ->
+    forall u, depends_on g v u -> In u (d_okdone st) /\ d_thread st u = Gone.
+Proof. exact built_start_needs_all_dependencies. Qed.
+Print Assumptions C13_all_dependencies_before.
 
 (* ... where "okdone" is exactly: the completion of the task's function with nil was received *)
 Theorem C13_okdone_means_returned_nil :
